@@ -23,6 +23,7 @@ from ..core import (
     parent,
 )
 from ..dispatch import check_flow_arity, find_flow_tables
+from . import c05
 
 SOLVER = "src/isla/solver.py"
 
@@ -34,7 +35,8 @@ EXPLANATION = (
     "typestate: the timeout test precedes every consumption of queue/solutions in the loop, start_time is only initialised once, "
     "nothing writes queue/solutions between loop exit and the StopIteration raise, and the re-entrant solve() call of the "
     "unsatisfiability probe saves/restores solver state in a finally block and handles both documented exits of solve(); "
-    "(R4) pops in solve() are dominated by non-emptiness tests. NOT decided: asserts / NotImplementedError / RuntimeError raised "
+    "(R4) pops in solve() are dominated by non-emptiness tests; (R5) no IndexError/ZeroDivisionError/TypeError escapes a constructor of the SMT fast path, "
+    "which solve() reaches without any handler (shared with C05). NOT decided: asserts / NotImplementedError / RuntimeError raised "
     "deeper in the elimination chain for particular formulas (inventoried in the evidence)."
 )
 
@@ -287,6 +289,8 @@ def inventory_raises(ctx):
 def run(ctx) -> str:
     ctx.guarded("R1", lambda: rule_r1(ctx))
     ctx.guarded("R2R3R4", lambda: rule_r2_r3_r4(ctx))
+    # exceptions escaping the SMT fast path escape solve() (no handler in between): same may-raise analysis as C05
+    ctx.guarded("R5-fastpath", lambda: (c05._cache.clear(), c05.rule_r3(ctx)))
     ctx.guarded("inventory", lambda: inventory_raises(ctx))
     ctx.assume("constraint in the supported fragment; asserts are developer contracts")
     ctx.assume("call-graph resolution is name based (over-approximate reachability)")
